@@ -50,6 +50,13 @@ class PathEnd(Exception):
     pass
 
 
+class SymRaise(Exception):
+    """a Python exception raised by a modelled library call (e.g. dict.pop of a missing key)"""
+
+    def __init__(self, name, token=None):
+        self.name, self.token = name, token
+
+
 # ------------------------------------------------------------------------------------------
 # values
 # ------------------------------------------------------------------------------------------
@@ -478,6 +485,8 @@ class Executor:
             self._exec_block(self.fx.node.body, st, self._finish_normal)
         except PathEnd:
             pass
+        except SymRaise as e:
+            self._end("raise", st, e.name)
         return self.obligations
 
     def _finish_normal(self, st):
@@ -589,6 +598,8 @@ class Executor:
         if isinstance(n, ast.If):
             c = ev.eval(n.test)
             return self._branch(st, c, lambda s: self._exec_block(n.body, s, k), lambda s: self._exec_block(n.orelse, s, k))
+        if isinstance(n, ast.Try):
+            return self._exec_try(n, st, k)
         if isinstance(n, ast.Break):
             if not getattr(self, "_break_ks", None):
                 raise Outside("break outside a loop")
@@ -598,6 +609,45 @@ class Executor:
         if isinstance(n, ast.For):
             return self._loop(n, st, k)
         raise Outside(f"statement {type(n).__name__} at line {n.lineno}")
+
+    def sym_raise(self, name):
+        """to be called by handlers: raises `name` at this point of the symbolic execution"""
+        ts = getattr(self, "_try_stack", [])
+        raise SymRaise(name, ts[-1] if ts else None)
+
+    def _exec_try(self, n, st, k):
+        if n.finalbody or n.orelse:
+            raise Outside("try/finally or try/else")
+        if not hasattr(self, "_try_stack"):
+            self._try_stack = []
+        token = object()
+        self._try_stack.append(token)
+
+        def after_body(s):
+            if token in self._try_stack:
+                self._try_stack.remove(token)  # the body is over: what follows is no longer protected
+            return k(s)
+
+        try:
+            return self._exec_block(n.body, st, after_body)
+        except SymRaise as e:
+            if e.token is not token:
+                raise
+            if token in self._try_stack:
+                self._try_stack.remove(token)
+            for h in n.handlers:
+                names = []
+                if h.type is None:
+                    names = None
+                elif isinstance(h.type, ast.Tuple):
+                    names = [ast.unparse(x).split(".")[-1] for x in h.type.elts]
+                else:
+                    names = [ast.unparse(h.type).split(".")[-1]]
+                if names is None or e.name in names or "Exception" in names or "BaseException" in names:
+                    if h.name:
+                        st.env[h.name] = Opaque(e.name, "exc")
+                    return self._exec_block(h.body, st, k)
+            raise
 
     def _branch(self, st, c, kt, kf):
         c = simp(Zb(c))
@@ -612,6 +662,10 @@ class Executor:
                 kt(st_t)
             except PathEnd:
                 pass
+            except SymRaise as e:
+                if e.token is not None:
+                    raise
+                self._end("raise", st_t, e.name)
         nc = z3.Not(c)
         if self.feasible(st_f, nc):
             st_f.pc.append(nc)
@@ -619,6 +673,10 @@ class Executor:
                 kf(st_f)
             except PathEnd:
                 pass
+            except SymRaise as e:
+                if e.token is not None:
+                    raise
+                self._end("raise", st_f, e.name)
 
     # -- assignment ------------------------------------------------------------------------
     def _assign(self, st, t, v, node, aug=False):
